@@ -205,8 +205,18 @@ def run_family(prop, fam, tier, seed, rundir, extra, tag, replay=None, n=None, h
     cur = os.path.join(rundir, "current_%s.txt" % tag)
     henv = dict(ENV)
     henv["MPDVERIF_CURRENT"] = cur
+    # a harness that does not come back (the code under test spins or blocks for ever inside a call the
+    # harness cannot bound) is stopped and reported like one that died
+    limit = int(os.environ.get("VERIF_HARNESS_TIMEOUT", "5400" if tier == "thorough" else "1200"))
     with open(ops, "w") as f:
-        r = subprocess.run(cmd, stdout=f, stderr=subprocess.PIPE, env=henv, timeout=7200)
+        try:
+            r = subprocess.run(cmd, stdout=f, stderr=subprocess.PIPE, env=henv, timeout=limit)
+        except subprocess.TimeoutExpired as te:
+            r = subprocess.CompletedProcess(cmd, 124, b"", ("harness stopped after %d s without finishing\n" % limit).encode() + (te.stderr or b""))
+    if r.returncode == 124 and not os.path.exists(cur):
+        # it hung while GENERATING (the loop family executes schedules while it generates them)
+        with open(cur, "w") as f:
+            f.write("%s.generation-of-the-operations-did-not-finish" % fam)
     if r.returncode != 0:
         # the harness died (abort / stack overflow / allocation failure inside the code under test):
         # attribute it to the operation that was running
